@@ -209,6 +209,13 @@ def cat(interp, segs: List[Grid]):
         if s.ndim != 1 or len(s.dims[0]) != 1:
             return None
         sidx, sext = s.dims[0][0]
+        if _is_pw(s.elem):
+            sub = segments(interp, s)
+            if sub is not None:
+                for st2, ln2, fn2 in sub:
+                    pieces.append(TupleV([Num(total + st2), Num(ln2), fn2(Poly.atom(idx) - total - st2)]))
+                total = total + sext
+                continue
         # element at global index idx  (idx in [total, total+sext)) = s.elem[sidx := idx - total]
         pieces.append(TupleV([Num(total), Num(sext), subst(s.elem, {sidx: Poly.atom(idx) - total})]))
         total = total + sext
@@ -273,6 +280,16 @@ def segments(interp, g: Grid):
             continue
         out.append((lo, ln2, (lambda j, val=val, ax=ax, lo=lo: subst(val, {ax: j + lo}))))
     return out
+
+
+def simplify_pw(interp, g: Grid) -> Grid:
+    """a 1-D grid whose piecewise element has a single applicable piece on the whole extent -> plain element"""
+    if isinstance(g, Grid) and g.ndim == 1 and len(g.dims[0]) == 1 and _is_pw(g.elem):
+        segs = segments(interp, g)
+        if segs is not None and len(segs) == 1 and segs[0][0].is_zero() and segs[0][1] == g.dims[0][0][1]:
+            ax = g.dims[0][0][0]
+            return Grid(g.dims, segs[0][2](Poly.atom(ax)))
+    return g
 
 
 def ceildiv(interp, a: Poly, b: Poly) -> Poly:
@@ -366,13 +383,29 @@ def binop(interp, op, l: V, r: V, node=None) -> Optional[V]:
                 return f(Num(int(a.v)), b)
             if isinstance(b, Const) and isinstance(b.v, bool):
                 return f(a, Num(int(b.v)))
-            pw = _piecewise_binop(f, a, b)
+            pw = _piecewise_binop(f, a, b, interp)
             if pw is not None:
                 return pw
             if isinstance(a, CondV) or isinstance(b, CondV):
                 return Term(name.lower(), [a, b])
             return Term(name.lower(), [a, b])
         return interp.elementwise2(l, r, f, name)
+    if (_is_pw(l) and isinstance(r, Num)) or (_is_pw(r) and isinstance(l, Num)) or (_is_pw(l) and _is_pw(r)):
+        def f2(a, b):
+            if isinstance(a, Num) and isinstance(b, Num):
+                return Num(num_binop(op, a.p, b.p))
+            pw = _piecewise_binop(f2, a, b, interp)
+            return pw if pw is not None else Term(name.lower(), [a, b])
+        pw = _piecewise_binop(f2, l, r, interp)
+        if pw is not None:
+            return pw
+    if _is_pw(l) and isinstance(r, Grid) or _is_pw(r) and isinstance(l, Grid):
+        def f3(a, b):
+            if isinstance(a, Num) and isinstance(b, Num):
+                return Num(num_binop(op, a.p, b.p))
+            pw = _piecewise_binop(f3, a, b, interp)
+            return pw if pw is not None else Term(name.lower(), [a, b])
+        return interp.elementwise2(l, r, f3, name)
     if isinstance(l, (Term, Num, Grid, TupleV)) and isinstance(r, (Term, Num, Grid, TupleV)):
         return Term(name.lower(), [l, r])
     if isinstance(l, (CondV,)) or isinstance(r, (CondV,)):
@@ -384,7 +417,52 @@ def _is_pw(x):
     return isinstance(x, Term) and x.op == "piecewise"
 
 
-def _piecewise_binop(f, a, b):
+def _pw_refine(interp, a, b):
+    """two piecewise terms over the same selector -> lists of pieces on a common refinement, or None"""
+    if vkey(a.kw["idx"]) != vkey(b.kw["idx"]):
+        return None
+    def bounds(t):
+        return [(p.items[0].p, p.items[0].p + p.items[1].p, p.items[2]) for p in t.args]
+    A, B = bounds(a), bounds(b)
+    pts = []
+    for lo, hi, _ in A + B:
+        for x in (lo, hi):
+            if not any(x == y for y in pts):
+                pts.append(x)
+    # insertion sort with decidable comparisons
+    order = []
+    for x in pts:
+        pos = None
+        for k, y in enumerate(order):
+            d = interp.decide(CondV("cmp", "<=", x, y))
+            if d is True:
+                pos = k
+                break
+            if d is None:
+                d2 = interp.decide(CondV("cmp", "<=", y, x))
+                if d2 is not True:
+                    return None
+        if pos is None:
+            order.append(x)
+        else:
+            order.insert(pos, x)
+    def value_on(P, lo, hi):
+        for plo, phi, v in P:
+            c1 = interp.decide(CondV("cmp", "<=", plo, lo))
+            c2 = interp.decide(CondV("cmp", "<=", hi, phi))
+            if c1 is True and c2 is True:
+                return v
+        return None
+    out = []
+    for lo, hi in zip(order, order[1:]):
+        va, vb = value_on(A, lo, hi), value_on(B, lo, hi)
+        if va is None or vb is None:
+            return None
+        out.append((lo, hi - lo, va, vb))
+    return out
+
+
+def _piecewise_binop(f, a, b, interp=None):
     """distribute elementwise arithmetic over piecewise sequences (same breakpoints, or piecewise with a plain value)"""
     if _is_pw(a) and isinstance(b, Num):
         return Term("piecewise", [TupleV([p.items[0], p.items[1], f(p.items[2], b)]) for p in a.args], a.kw)
@@ -393,6 +471,10 @@ def _piecewise_binop(f, a, b):
     if _is_pw(a) and _is_pw(b) and len(a.args) == len(b.args) and vkey(a.kw["idx"]) == vkey(b.kw["idx"]) and \
             all(vkey(x.items[0]) == vkey(y.items[0]) and vkey(x.items[1]) == vkey(y.items[1]) for x, y in zip(a.args, b.args)):
         return Term("piecewise", [TupleV([x.items[0], x.items[1], f(x.items[2], y.items[2])]) for x, y in zip(a.args, b.args)], a.kw)
+    if _is_pw(a) and _is_pw(b) and interp is not None:
+        ref = _pw_refine(interp, a, b)
+        if ref is not None:
+            return Term("piecewise", [TupleV([Num(lo), Num(ln), f(va, vb)]) for lo, ln, va, vb in ref], a.kw)
     return None
 
 
@@ -466,7 +548,7 @@ def _freeze_sparse(o: ObjV) -> Term:
     """immutable snapshot of a sparse object (its construction term and its data vector at this moment)"""
     return Term("sparse", [o.origin if o.origin is not None else Const(None)],
                 {"data": o.attrs.get("data", Const(None)), "pattern": o.attrs["__pattern__"], "chain": o.attrs["__chain__"],
-                 "uid": Const(o.uid), "stores": Const(len(o.stores))})
+                 "uid": Const(o.uid), "stores": Const(len(o.stores)), "obj": o})
 
 
 freeze_sparse = _freeze_sparse
@@ -547,11 +629,13 @@ def _slice_bounds(idx: Term):
     return f(lo), f(hi), f(st)
 
 
-def _norm_bound(b: Poly, n: Poly, default: Poly):
+def _norm_bound(b: Poly, n: Poly, default: Poly, interp=None):
     """python slice bound normalisation for symbolic n: negative constants count from the end"""
     if b is None:
         return default
     if b.is_const() and b.as_const() < 0:
+        return n + b
+    if interp is not None and not b.is_const() and interp.decide(CondV("cmp", "<", b, Poly.const(0))) is True:
         return n + b
     # -(expr) with a syntactically negative single term => from the end
     if not b.is_const() and all(c < 0 for c in b.terms.values()):
@@ -602,8 +686,8 @@ def grid_subscript(interp, g: Grid, idx: V, node) -> V:
             if st is not None and not (st == Poly.const(1)):
                 if len(d) != 1:
                     return Top("strided slice of product dimension")
-                lo2 = _norm_bound(lo, n, Poly.const(0))
-                hi2 = _norm_bound(hi, n, n)
+                lo2 = _norm_bound(lo, n, Poly.const(0), interp)
+                hi2 = _norm_bound(hi, n, n, interp)
                 ni = interp.fresh_idx("s")
                 cnt = ceildiv(interp, hi2 - lo2, st)
                 interp.events.append(("strided_slice", lo2, hi2, st, n, interp.where(), interp.guards(), tuple(interp.frames)))
@@ -621,8 +705,8 @@ def grid_subscript(interp, g: Grid, idx: V, node) -> V:
                 continue
             if len(d) != 1:
                 return Top("slice of product dimension")
-            lo2 = _norm_bound(lo, n, Poly.const(0))
-            hi2 = _norm_bound(hi, n, n)
+            lo2 = _norm_bound(lo, n, Poly.const(0), interp)
+            hi2 = _norm_bound(hi, n, n, interp)
             ni = interp.fresh_idx("s")
             elem = subst(elem, {d[0][0]: Poly.atom(ni) + lo2})
             out_dims.append([(ni, hi2 - lo2)])
@@ -658,8 +742,24 @@ def grid_subscript(interp, g: Grid, idx: V, node) -> V:
         return Top(f"index of kind {type(it).__name__}")
     out_dims.extend(dims[k:])
     if not out_dims:
-        return elem
-    return Grid(out_dims, elem)
+        return _resolve_pw_scalar(interp, elem)
+    return simplify_pw(interp, Grid(out_dims, elem))
+
+
+def _resolve_pw_scalar(interp, el):
+    """piecewise term whose selector is a closed expression: pick the piece when membership is decidable"""
+    if not _is_pw(el):
+        return el
+    sel = el.kw["idx"].p
+    for p in el.args:
+        st, ln, val = p.items[0].p, p.items[1].p, p.items[2]
+        lo = interp.decide(CondV("cmp", ">=", sel, st))
+        hi = interp.decide(CondV("cmp", "<", sel, st + ln))
+        if lo is True and hi is True:
+            return _resolve_pw_scalar(interp, val)
+        if lo is None or hi is None:
+            return el
+    return el
 
 
 def _decompose(i: Poly, d) -> Optional[dict]:
@@ -761,7 +861,8 @@ def list_subscript(interp, l: ListV, idx: V, node) -> V:
 def _structured_list_slice(interp, l: ListV, lo, hi):
     """[:-m] / [k:] on skeleton lists where whole leading / trailing items are removed"""
     items = l.items
-    if lo is None and hi is not None and all(c < 0 for c in hi.terms.values()):
+    if lo is None and hi is not None and (all(c < 0 for c in hi.terms.values()) or
+                                          interp.decide(CondV("cmp", "<", hi, Poly.const(0))) is True):
         cut = -hi   # remove `cut` trailing elements
         # case: single Rep([..., Seg(None, cut)], count)  ->  Rep(count-1) + head of the period
         if len(items) == 1 and isinstance(items[0], Rep):
